@@ -156,6 +156,7 @@ M("c13.rsa.cascade.keyerror", "C13", "lib/Crypto/PublicKey/RSA.py", 'raise Value
 M("c13.twin.dsa.spki.ints", "C13", "lib/Crypto/PublicKey/DSA.py",
   "    p, q, g = list(DerSequence().decode(params or emb_params,\n                                        nr_elements=3,\n                                        only_ints_expected=True))\n",
   "    dss = DerSequence().decode(params or emb_params, only_ints_expected=True, nr_elements=3)\n    p, q, g = dss[0], dss[1], dss[2]\n", twin=True)
+M("c13.der.writer.len128", "C13", ASN1, "                if length > 127:\n                        encoding = long_to_bytes(length)", "                if length > 128:\n                        encoding = long_to_bytes(length)", "K|der.writers")
 M("c13.twin.asn1.guard", "C13", ASN1, "                    if len(encoded_length) == 0:\n", "                    if not encoded_length:\n", twin=True)
 
 # ---------------------------------------------------------------- C04 toy groups
